@@ -106,10 +106,10 @@ var propTable = map[string]*propSpec{
 	},
 	"C06": {
 		ID:    "C06",
-		Rules: []string{"R-REGTABLE", "R-ALLOC", "R-NEWSTR", "R-RELEASE", "R-TABLESET", "R-KILL", "R-CONTEXT"},
+		Rules: []string{"R-REGTABLE", "R-ALLOC", "R-NEWSTR", "R-RELEASE", "R-TABLESET", "R-KILL", "R-CONTEXT", "R-ACC"},
 		Explanation: "Decides the structural content of 'every operation whose allocation depends on program-chosen sizes charges memory before allocating, and releasing never drives the counter below zero': " +
 			"(R-ALLOC) every computed-size allocation is bounded by memory held or dominated by a charge on the same size; (R-NEWSTR) every fresh program-sized Lua string is preceded by a memory charge; " +
-			"(R-RELEASE) on every path no amount is released more often than it was acquired/inherited, destructors release exactly what constructors required under the same flags, and every release site names its require; (R-TABLESET) table growth is charged through the only caller of (*Table).Set. The termination itself is uninterceptable and the status is set last (R-KILL, R-CONTEXT, shared with C05): a memory kill that a recover frame turns into a Lua error, or a context marked finished before its handlers ran, leaves code running with the limit off.",
+			"(R-RELEASE) on every path no amount is released more often than it was acquired/inherited, destructors release exactly what constructors required under the same flags, and every release site names its require; (R-TABLESET) table growth is charged through the only caller of (*Table).Set. The termination itself is uninterceptable and the status is set last (R-KILL, R-CONTEXT, shared with C05): a memory kill that a recover frame turns into a Lua error, or a context marked finished before its handlers ran, leaves code running with the limit off. (R-ACC) Extra arguments accumulated for a vararg function are charged before they are appended.",
 		NotDecided: "monotonicity of 'killed' in M and the constant in 'heap <= constant x M' (value-level); allocations hidden inside the standard library (append growth, map buckets, fmt); over-accounting (memory charged and never released, e.g. stringlib.Format's deferred ReleaseMem(tmpMem) evaluated at defer time).",
 		Assumptions: []string{
 			"a charge 'on the same size' is recognised by def-use (the charged amount's expression shares the allocation's unbounded leaf) — arithmetic equality of the two amounts is not proved",
